@@ -291,6 +291,13 @@ func (w *W) c11Docs(r *gen.Rand, k int) []*c11Doc {
 	return out
 }
 
+// c11Kept is a blob the caller holds on to while the Serializers go on working.
+type c11Kept struct {
+	blob, copy []byte
+	d          *c11Doc
+	step       int
+}
+
 func c11Compare(out *simdjson.ParsedJson, d *c11Doc) string {
 	if d.raw {
 		if a, b := c11RawView(d.pj), c11RawView(out); a != b {
@@ -358,6 +365,7 @@ func (w *W) c11Program(k int, emit func(blob, dump []byte)) {
 		}
 	}
 	var trace []string
+	var kept []c11Kept
 	steps := 6 + r.Intn(10)
 	nontrivial := false
 	for s := 0; s < steps; s++ {
@@ -452,6 +460,39 @@ func (w *W) c11Program(k int, emit func(blob, dump []byte)) {
 			}
 			w.Violation("C11/different-document/"+key, fmt.Sprintf("round trip gives a different document (%s): %s; history=%v", attr, diff, lastN(trace, 8)), cs)
 			return
+		}
+		// blobs are the caller's bytes: whatever the two Serializers do later, a blob that was kept
+		// stays byte for byte what Serialize returned, and reads back as the same document
+		for ki := range kept {
+			if !bytes.Equal(kept[ki].blob, kept[ki].copy) {
+				w.Violation("C11/library-wrote-into-a-kept-blob", fmt.Sprintf("a serialized blob the caller kept (made %d steps ago from %s) was modified by later Serialize/Deserialize calls (first difference at byte %d of %d); history=%v", s-kept[ki].step, kept[ki].d.name, firstDiff(kept[ki].blob, kept[ki].copy), len(kept[ki].copy), lastN(trace, 8)), cs)
+				return
+			}
+		}
+		if len(kept) > 0 && r.Chance(1, 3) {
+			kb := kept[r.Intn(len(kept))]
+			var kout *simdjson.ParsedJson
+			var kerr error
+			perr := walk.Guard(func() error { kout, kerr = B.Deserialize(kb.blob, nil); return nil })
+			trace = append(trace, fmt.Sprintf("deser(kept blob of %s from step %d)", kb.d.name, kb.step))
+			w.Eval(1)
+			if perr != nil || kerr != nil {
+				w.Violation("C11/kept-blob-no-longer-deserializes", fmt.Sprintf("a blob kept from an earlier step fails now: %v %v; history=%v", perr, kerr, lastN(trace, 8)), cs)
+				return
+			}
+			if diff := c11Compare(kout, kb.d); diff != "" {
+				w.Violation("C11/kept-blob-different-document", fmt.Sprintf("a blob kept from an earlier step reads back as a different document now: %s; history=%v", diff, lastN(trace, 8)), cs)
+				return
+			}
+			w.Count("kept_blobs_read_again_later", 1)
+		}
+		if len(blob) <= 1<<20 && r.Chance(1, 2) {
+			e := c11Kept{blob: blob, copy: append([]byte{}, blob...), d: d, step: s}
+			if len(kept) < 4 {
+				kept = append(kept, e)
+			} else {
+				kept[r.Intn(4)] = e
+			}
 		}
 		// second generation: what Deserialize left in the (recycled) destination goes through
 		// Serialize again; whole-tape consumers see every entry, also those inside deleted runs
